@@ -89,6 +89,39 @@ func c16Load(cs histCase) (*histEnv, string) {
 }
 
 // exec runs one operation and returns everything observable as a string.
+// execWith issues the operation with the given Go data (the caller's own objects).
+func (h *histEnv) execWith(op histOp, data map[string]any) string {
+	var res string
+	switch op.Kind {
+	case "string":
+		out, ferr := h.tpl.String(op.Name, data)
+		res = "out=" + out
+		if ferr != nil {
+			res += fmt.Sprintf("\nerr=%s line=%d path=%s", ferr.Message(), ferr.Line(), ferr.Filepath())
+		}
+	case "response":
+		w := httptest.NewRecorder()
+		err := h.tpl.Response(w, op.Name, data)
+		res = "body=" + w.Body.String()
+		if err != nil {
+			res += "\nerr=" + err.Error()
+		}
+	case "evalstring":
+		out, err := textwire.EvaluateString(op.Src, data)
+		res = "out=" + out
+		if err != nil {
+			res += "\nerr=" + err.Error()
+		}
+	case "evalfile":
+		out, err := textwire.EvaluateFile(filepath.Join(h.root, "t", op.Name+".tw"), data)
+		res = "out=" + out
+		if err != nil {
+			res += "\nerr=" + err.Error()
+		}
+	}
+	return strings.ReplaceAll(res, h.root, "<root>")
+}
+
 func (h *histEnv) exec(op histOp) string {
 	data := op.Data.GoMap()
 	before := op.Data.GoMap()
@@ -328,6 +361,11 @@ func c16Trees() []histCase {
 		histOp{Kind: "evalfile", Name: "plain", Data: withBad(spec.Struct([]string{"Inner"}, []*spec.Value{spec.Unsupported(spec.TComplex)}))},
 		histOp{Kind: "evalstring", Src: "{{ name }}", Data: withBad(spec.Map(spec.T(spec.TAny), []string{"k"}, []*spec.Value{spec.Any(spec.Unsupported(spec.TIntMap))}))},
 	)
+	// the same page given a struct, then maps whose keys are spelled like the template says, like the
+	// struct's field, or both ways: every call looks the name up in its own data
+	pm := (&spec.Data{}).Add("p", spec.Map(spec.T(spec.TAny), []string{"name", "age"}, []*spec.Value{spec.Any(spec.String("Mia")), spec.Any(spec.IntOf(spec.TInt, 7))}))
+	pn := (&spec.Data{}).Add("p", spec.Map(spec.T(spec.TAny), []string{"name", "Name", "age", "Age"}, []*spec.Value{spec.Any(spec.String("lower")), spec.Any(spec.String("UPPER")), spec.Any(spec.IntOf(spec.TInt, 1)), spec.Any(spec.IntOf(spec.TInt, 2))}))
+	ops = append(ops, histOp{Kind: "string", Name: "person", Data: pm}, histOp{Kind: "string", Name: "person", Data: pn})
 	return []histCase{
 		{Files: files, Ops: ops},
 		{Files: files, Ops: ops, Debug: true},
@@ -357,7 +395,7 @@ func c16NonTrivial(cs histCase) bool {
 func TestC16_HistoriesEnum(t *testing.T) {
 	maxLen := harness.Pick(2, 3)
 	c := harness.New(t, "C16", "histories-enum",
-		fmt.Sprintf("every history of length <= %d (2 quick, 3 thorough) over 39 operation instances {String, Response, EvaluateString, EvaluateFile} x {succeeding, failing at run time, not found, given data of an unsupported kind (channel, function, complex number, maps with integer / boolean keys; top level and nested)} on a template directory with layout, component, loops and objects, under up to 6 configurations (debug on/off x no / working / missing / failing custom error page). Each operation's result (output, or error message + line + path, Response body + returned error) must equal the result of the same operation issued first after a fresh load; afterwards all operations still give their baselines, the configuration is unchanged and the caller's data is deep-equal to a copy. Non-trivial: a failing render or failing Response after a string/file evaluation or an error page. Distinct by construction.", maxLen))
+		fmt.Sprintf("every history of length <= %d (2 quick, 3 thorough) over 41 operation instances {String, Response, EvaluateString, EvaluateFile} x {succeeding, failing at run time, not found, given data of an unsupported kind (channel, function, complex number, maps with integer / boolean keys; top level and nested)} on a template directory with layout, component, loops and objects, under up to 6 configurations (debug on/off x no / working / missing / failing custom error page). Each operation's result (output, or error message + line + path, Response body + returned error) must equal the result of the same operation issued first after a fresh load; afterwards all operations still give their baselines, the configuration is unchanged and the caller's data is deep-equal to a copy. Non-trivial: a failing render or failing Response after a string/file evaluation or an error page. Distinct by construction.", maxLen))
 	defer c.Finish()
 	trees := c16Trees()
 	ntrees := len(trees)
@@ -396,7 +434,7 @@ func TestC16_HistoriesEnum(t *testing.T) {
 		}
 		rec(nil)
 	}
-	c.ExhaustivePart(fmt.Sprintf("all histories of length <= %d over 39 operations x %d configurations", maxLen, ntrees))
+	c.ExhaustivePart(fmt.Sprintf("all histories of length <= %d over 41 operations x %d configurations", maxLen, ntrees))
 }
 
 func TestC16_HistoriesRandom(t *testing.T) {
